@@ -54,7 +54,8 @@ func (c06) Gen(r *rand.Rand, tier string, idx int) *core.Plan {
 	w["counter"] = int64(core.Pick(r, 0, 1, 1, 1, 2, 3, 4, 5, 6, 7, 8, 9, 9, 9, 10))
 	w["viaSigner"] = int64(r.IntN(2))
 	w["skew"] = int64(r.IntN(8))
-	w["accuracy"] = int64(core.Pick(r, 0, 1, 5))
+	w["accuracy"] = int64(core.Pick(r, 0, 1, 5, 0, 2))
+	w["accMillis"] = int64(core.Pick(r, 0, 0, 0, 500, 999))
 	n := 1 + r.IntN(6)
 	for i := 0; i < n; i++ {
 		// instant: boundary index (0 expiry, 1 leaf end, 2 inter end, 3 root end, 4 far), delta index
@@ -99,8 +100,8 @@ func (l c06) Exec(env *core.Env) *core.Result {
 		tsaFrom, tsaTo := t0.Add(-24*time.Hour), t0.Add(20*365*24*time.Hour)
 		tsa := world.NewTSA(world.TSAOpts{Tag: "good", NoEKU: counter == 5, ExtraEKU: counter == 6, NonCritEKU: counter == 7, NotBefore: tsaFrom, NotAfter: tsaTo})
 		otherTSA := world.NewTSA(world.TSAOpts{Tag: "other", NotBefore: tsaFrom, NotAfter: tsaTo})
-		tsa.Accuracy = int(w["accuracy"])
-		acc := time.Duration(tsa.Accuracy) * time.Second
+		tsa.Accuracy, tsa.AccuracyMillis = int(w["accuracy"]), int(w["accMillis"])
+		acc := time.Duration(tsa.Accuracy)*time.Second + time.Duration(tsa.AccuracyMillis)*time.Millisecond
 		if acc == 0 {
 			acc = time.Second // baseline policy default
 		}
@@ -236,7 +237,7 @@ func (l c06) Exec(env *core.Env) *core.Result {
 			instants = append(instants, t)
 		}
 		sort.Slice(instants, func(i, j int) bool { return instants[i].Before(instants[j]) })
-		config := fmt.Sprintf("scheme=%d fmt=%d ends=%d/%d/%d expiry=%d tsaMode=%d counter=%d skew=%d acc=%d", w["scheme"], w["format"], w["leafEnd"], w["interEnd"], w["rootEnd"], w["expiry"], tsaMode, counter, w["skew"], w["accuracy"])
+		config := fmt.Sprintf("scheme=%d fmt=%d ends=%d/%d/%d expiry=%d tsaMode=%d counter=%d skew=%d acc=%d.%03d", w["scheme"], w["format"], w["leafEnd"], w["interEnd"], w["rootEnd"], w["expiry"], tsaMode, counter, w["skew"], w["accuracy"], w["accMillis"])
 		for _, at := range instants {
 			if d := at.Sub(time.Now()); d > 0 {
 				rt.Sleep(d)
